@@ -7,6 +7,7 @@
    KVal                 : the value parsers (Cookie, URI, Args, byte range, header params, multipart), recorded by Go:
                           validation by search, no model. *)
 From FH Require Import Model.Base Gen.GenC09 Model.Lines Model.ReqHead Model.RespHead Spec.HeadSpec Check.C09Check.
+From FH Require Model.HeaderParams Model.ByteRange Model.Args.   (* value parsers compared with their models *)
 From FH Require Gen.GenC08 Model.Body.     (* the body readers of m-c07-c34: readHexInt with the regenerated maxHexIntChars64 *)
 Open Scope nat_scope.
 
@@ -25,7 +26,10 @@ Inductive c08case :=
 | KReqHead (cfg : hcfg) (bsize chunk : nat) (input : bytes) (o : try_res req_head)   (* chunk: bytes per source Read, 0 = all *)
 | KRespHead (cfg : hcfg) (bsize chunk : nat) (input : bytes) (o : try_res resp_head)
 | KMsg (resp : bool) (input : bytes) (maxBody : Z) (o : msg_obs)
-| KVal (parser : N) (input_len : Z) (panicked timed_out : bool).
+| KVal (parser : N) (input_len : Z) (panicked timed_out : bool)
+| KParams (input : bytes) (visited : list (bytes * bytes)) (panicked timed_out : bool)   (* VisitHeaderParams, f = always true *)
+| KRange (input : bytes) (contentLength : Z) (res : option (Z * Z)) (panicked timed_out : bool)   (* ParseByteRange *)
+| KArgs (input : bytes) (pairs : list (bytes * bytes)) (panicked timed_out : bool).      (* Args.ParseBytes, then VisitAll *)
 
 Definition str100Continue : bytes := s2b "100-continue".
 
@@ -99,6 +103,19 @@ Definition corr_ok (c : c08case) : bool :=
   | KMsg false input mb o => msg_corr_req input mb o
   | KMsg true input mb o => msg_corr_resp input mb o
   | KVal _ _ _ _ => true
+  | KParams input visited p t =>
+      if p || t then true
+      else match HeaderParams.VisitHeaderParams input with Ok l => kvs_eqb l visited | _ => false end
+  | KRange input n res p t =>
+      if p || t then true
+      else match ByteRange.ParseByteRange input n, res with
+           | ByteRange.BROk s e, Some (s', e') => Z.eqb s s' && Z.eqb e e'
+           | ByteRange.BRErr, None => true
+           | _, _ => false
+           end
+  | KArgs input pairs p t =>
+      if p || t then true
+      else match Args.ParseBytes Args.emptyArgs input with Some a => kvs_eqb (Args.All a) pairs | None => false end
   end.
 
 (* the property: no panic, no hang, consumed within the input; where the head announces the length of the message
@@ -122,4 +139,5 @@ Definition prop_ok (c : c08case) : bool :=
             end
        else true)
   | KVal _ _ p t => negb p && negb t
+  | KParams _ _ p t | KRange _ _ _ p t | KArgs _ _ p t => negb p && negb t
   end.
